@@ -149,21 +149,32 @@ fn compare(spec: &NodeSpec, a: &Out, b: &Out, t: u64, m_hist: f64, m_flow: f64, 
                 return skip;
             }
             let w: Vec<&Input> = win.iter().skip(win.len() - 1 - n).collect();
-            let mut total = 0.0;
+            // the indicator's own denominator is the SIGNED sum of the raw flows in the window (flows are
+            // negative for a negative volume or typical price), so cancellation must be accounted for
+            let mut signed = 0.0;
+            let mut abs = 0.0;
             for k in 1..w.len() {
                 let (p, q) = (tp(w[k - 1]), tp(w[k]));
                 if q != p {
-                    total += (q * w[k].v).abs();
+                    signed += q * w[k].v;
+                    abs += (q * w[k].v).abs();
                 }
             }
-            if total == 0.0 {
+            let d = signed.abs();
+            if d == 0.0 || !(d > 0.0) {
                 return skip;
             }
-            let c = m_flow / total * 2.0;
-            let tol = tau * c * 100.0;
-            if tol >= 100.0 {
+            if abs / d > 1e6 {
                 return skip;
             }
+            // tolerance as large as the whole output range: the window is numerically meaningless
+            // (e.g. a min-positive flow next to running totals that just held ordinary flows)
+            let tol0 = tau * (m_flow / d) * 100.0;
+            if !(tol0 < 100.0) {
+                return skip;
+            }
+            let r = if b.v[0].is_finite() { b.v[0] } else { a.v[0] };
+            let tol = tol0 * (1.0 + (r / 100.0).abs());
             within((a.v[0] - b.v[0]).abs(), tol, "tau*cond*100")
         }
         Kind::Cci => {
